@@ -10,6 +10,7 @@ import TzVerif.Model.TimeZone
 import TzVerif.Spec.Zone
 import TzVerif.Proofs.Table
 import TzVerif.Proofs.SrcEqZone
+import TzVerif.Proofs.SrcEqOwned
 import TzVerif.Generated.StableC03   -- per run: the current translation (SrcNow) equals the baseline (Src) these theorems are about
 
 namespace TzVerif.C03
@@ -92,5 +93,12 @@ theorem local_date_time_src (u ns : Int) (z : TimeZone) (d : DateTime) (h : Src.
   rw [Proofs.SrcEq.dt_from_timespec_eq] at h
   rw [Proofs.SrcEq.find_local_time_type_eq]
   exact ⟨(local_date_time u ns z d h).1, (local_date_time u ns z d h).2.1, (local_date_time u ns z d h).2.2.1⟩
+
+/-- the owned zone (`TimeZone`, alloc) answers through its borrowed view: `as_ref` is the same zone, and
+`TimeZone::find_local_time_type` is the lookup these theorems are about; `LocalTimeType::utc()` is the model's UTC type -/
+theorem owned_zone_lookup_src (z : TimeZone) (u : Int) :
+    Src.TimeZone.as_ref z = z ∧ Src.TimeZone.find_local_time_type z u = z.findLocalTimeType u ∧
+    Proofs.SrcEq.lttOf Src.LocalTimeType.utc = LocalTimeType.utc :=
+  ⟨Proofs.SrcEq.tz_as_ref_eq z, Proofs.SrcEq.tz_find_local_time_type_eq z u, Proofs.SrcEq.ltt_utc_eq⟩
 
 end TzVerif.C03
